@@ -2,7 +2,7 @@ import TracklibVerif.Lemmas.GraphSession
 /-! Lemmas for C06: what the calls of a session return, in terms of true distances — recorded entries of a search
 stopped at a target, the visited set (`sub_network`), a table filled by several calls with the same dictionary. -/
 namespace TV.Graph
-variable {W : Type} [AddCommMonoid W] [LinearOrder W] [IsOrderedAddMonoid W]
+variable {W : Type} [LinearOrder W] [Add W] [Zero W] [WalkAdd W]
 
 /-- for any target and cut-off: the recorded entries are exactly the visited nodes with their labels, and every
 visited node's label is within the cut-off -/
